@@ -155,13 +155,16 @@ func (m *Manager) Close() error {
 	m.lock.Lock()
 	defer m.lock.Unlock()
 
+	// Every allocation is closed even when closing one of them reports an
+	// error; the first error is returned.
+	var firstErr error
 	for _, a := range m.allocations {
-		if err := a.Close(); err != nil {
-			return err
+		if err := a.Close(); err != nil && firstErr == nil {
+			firstErr = err
 		}
 	}
 
-	return nil
+	return firstErr
 }
 
 // CreateAllocation creates a new allocation and starts relaying.
